@@ -547,6 +547,12 @@ func newJSON(v any, path JSONPath) (JSON, error) {
 			return newJSONNumber(float64(val), path), nil
 		case float64:
 			return newJSONNumber(val, path), nil
+		case json.Number:
+			f64, err := val.Float64()
+			if err != nil {
+				return nil, err
+			}
+			return newJSONNumber(f64, path), nil
 
 		case []bool:
 			return newJSONBoolArray(val, path), nil
